@@ -84,6 +84,8 @@ pub fn run_cli_flags(args: &Args, property: &str) -> Report {
         }
         let mut sub: Option<&str> = None;
         let mut changed_output: Option<String> = None;
+        // the no-touch check below is about a tree that a successful build left behind (a failed build leaves partial outputs)
+        let mut built_ok = false;
         match variant {
             0 => {
                 cfg.trailing = false;
@@ -123,7 +125,7 @@ pub fn run_cli_flags(args: &Args, property: &str) -> Report {
             if variant != 4 {
                 b0.trailing = cfg.trailing;
             }
-            let _ = run_impl(&pa, &b0, &log);
+            built_ok = run_impl(&pa, &b0, &log).verdict == "ok";
             if variant == 2 || (variant == 3 && rng.chance(1, 2)) {
                 // make one output stale or (needed only) missing; verify must then fail, also through the exit status
                 let o = output_name(&p.sources[rng.below(p.sources.len())]);
@@ -186,7 +188,7 @@ pub fn run_cli_flags(args: &Args, property: &str) -> Report {
         } else if cli_ok && after.files != lib.after.files {
             let diff: Vec<&String> = after.files.keys().filter(|k| after.files.get(*k) != lib.after.files.get(*k)).collect();
             bad = Some(format!("files differ between the CLI run and the library run: {:?}", diff));
-        } else if (variant == 1 || variant == 2) && cli_ok {
+        } else if (variant == 1 || variant == 2) && cli_ok && built_ok {
             // -N: what was already correct may not be touched (everything on an up-to-date tree; everything
             // but the one stale / missing output otherwise)
             for (f, m) in &meta_after {
